@@ -28,10 +28,12 @@ MONITORS = ["simfile_directory", "pack_listing", "opendir", "openpack", "loader_
 REQUIRED = ["mixed_case_extension", "near_miss_name", "bare_extension_name", "duplicate_sm", "duplicate_ssc", "both_kinds",
             "both_kinds_plus_duplicate", "nested_dir_with_simfile", "empty_dir", "loose_simfile_in_pack", "stray_text_file",
             "utf16_file", "native", "memory", "ignore_duplicate", "sub_directory_named_like_a_simfile",
-            "song_directory_named_like_an_audio_or_image_file", "pack_with_simfiles_in_different_encodings"]
+            "song_directory_named_like_an_audio_or_image_file", "pack_with_simfiles_in_different_encodings",
+            "name_not_in_unicode_normal_form_c"]
 
-SM_NAMES = ["song.sm", "Song.SM", "x.Sm", "a b.sm", ".sm", "chart.old.sm", "z.sM"]
-SSC_NAMES = ["song.ssc", "Song.SSC", "x.sSc", "a b.ssc", ".ssc", "chart.sm.ssc", "z.SsC"]
+# (the two names with U+0301 / U+212B are NOT in Unicode normal form C: file names are what the filesystem says they are)
+SM_NAMES = ["song.sm", "Song.SM", "x.Sm", "a b.sm", ".sm", "chart.old.sm", "z.sM", "Cafe\u0301.sm"]
+SSC_NAMES = ["song.ssc", "Song.SSC", "x.sSc", "a b.ssc", ".ssc", "chart.sm.ssc", "z.SsC", "Poke\u0301mon \u212b.SSC"]
 NEAR = ["song.sm.old", "song.ssca", "sm", "ssc", "SM", "x.smx", "song.sm~", "song.ssc.bak", "notes.dwi", "sm.txt", "song.s", "asm", "song_sm"]
 OTHER = ["banner.png", "bg.jpg", "music.ogg", "readme.txt", "Thumbs.db", "video.avi"]
 
@@ -70,7 +72,8 @@ def gen_dir(rng, depth, content_mode):
         for i in range(rng.choice([0, 1, 2, 3]) if depth > 1 else rng.choice([0, 0, 1])):
             name = rng.choice(["Song %d" % i, "sub%d" % i, "Pack.%d" % i, "songs.sm.d%d" % i, "empty%d" % i,
                                # directories named like files: audio, image and simfile extensions
-                               "Night Drive %d.ogg" % i, "Bonus%d.PNG" % i, "demo%d.sm" % i, "old%d.SSC" % i])
+                               "Night Drive %d.ogg" % i, "Bonus%d.PNG" % i, "demo%d.sm" % i, "old%d.SSC" % i,
+                               "Poke\u0301mon %d" % i])
             if name.startswith("empty"):
                 d["dirs"][name] = {"dirs": {}, "files": {}}
             else:
@@ -109,7 +112,18 @@ def kind_of(name):
     return None
 
 
+def effective_kind(kind, tag):
+    """A legacy code page cannot hold every file name that appears in the title: such files are written in UTF-8."""
+    if kind in NON_ASCII:
+        try:
+            (tag + NON_ASCII[kind][0]).encode(NON_ASCII[kind][1])
+        except UnicodeEncodeError:
+            return "utf8na"
+    return kind
+
+
 def content(kind, fname, tag):
+    kind = effective_kind(kind, tag)
     fmt = kind_of(fname)
     head = "#VERSION:0.83;\n" if fmt == "ssc" else ""
     text = f"{head}#TITLE:{tag};\n#ARTIST:a;\n"
@@ -252,7 +266,8 @@ def check(ctx, case):
                     continue
 
                 def via_opendir(**o):
-                    sf, p = simfile.opendir(path, filesystem=t.fs, **o)
+                    # the filesystem is the second positional parameter of opendir and openpack
+                    sf, p = simfile.opendir(path, t.fs, **o) if ctx.evaluations % 2 else simfile.opendir(path, filesystem=t.fs, **o)
                     if t.norm(p) != t.norm(pref):
                         raise AssertionError(f"opendir returned path {p!r}, want {pref!r}")
                     return sf
@@ -290,6 +305,10 @@ def observe(ctx, d, sms, sscs):
         ctx.feat("utf16_file")
     if any(kind_of(n) for n in d["dirs"]):
         ctx.feat("sub_directory_named_like_a_simfile")
+    import unicodedata
+
+    if any(kind_of(n) and unicodedata.normalize("NFC", n) != n for n in names) or any(unicodedata.normalize("NFC", n) != n for n in d["dirs"]):
+        ctx.feat("name_not_in_unicode_normal_form_c")
     if any(n.lower().endswith((".ogg", ".png")) and any(kind_of(x) for x in s["files"]) for n, s in d["dirs"].items()):
         ctx.feat("song_directory_named_like_an_audio_or_image_file")
     encs = {v for s in d["dirs"].values() for n, v in s["files"].items() if kind_of(n) and v in NON_ASCII}
@@ -301,8 +320,8 @@ def expected_load(d, pref_name, opts, rel):
     """What opening the preferred file of directory d must give under opts: ("ok", title) or ("raise", name)."""
     if pref_name is None:
         return ("raise", "FileNotFoundError")
-    kind = d["files"][pref_name]
     tag = (rel + "/" + pref_name).lstrip("/")
+    kind = effective_kind(d["files"][pref_name], tag)
     if kind == "utf16":
         if opts.get("encoding") == "utf-16":
             return ("ok", tag)
@@ -403,7 +422,10 @@ def check_pack(ctx, t, path, d, rel, opts_list, calls):
             routes = [("SimfilePack.simfiles", lambda o=opts: [(sf, None) for sf in SimfilePack(path, filesystem=t.fs, ignore_duplicate=ign).simfiles(**o)]),
                       ("SimfilePack.simfiles(reused object)", lambda o=opts: [(sf, None) for sf in reused[ign].simfiles(**o)])]
             if not ign:
-                routes.append(("openpack", lambda o=opts: list(simfile.openpack(path, filesystem=t.fs, **o))))
+                if ctx.evaluations % 2:
+                    routes.append(("openpack", lambda o=opts: list(simfile.openpack(path, t.fs, **o))))
+                else:
+                    routes.append(("openpack", lambda o=opts: list(simfile.openpack(path, filesystem=t.fs, **o))))
             for label, fn in routes:
                 del calls[:]
                 got = outcome(fn)
